@@ -7,6 +7,7 @@ from pexpect import EOF, TIMEOUT
 
 from ..core.runner import split_range
 from ..core.watchdog import watchdog, CaseTimeout
+from ..core.acc import second_attempt
 from ..workloads.gen_expect import rng_for
 from ..workloads.puppetctl import PeerError
 from ..workloads.transports import Link
@@ -430,11 +431,12 @@ def run_shard(spec, acc):
     if spec.get('async'):
         rng = rng_for(spec['seed'], spec['shard'], 1114)
         for i in range(spec['n']):
+            ac = gen_async(rng)
             try:
                 with watchdog(60):
-                    async_case(gen_async(rng), acc)
+                    async_case(ac, acc)
             except CaseTimeout as e:
-                acc.inconc('watchdog: %s' % e)
+                second_attempt(acc, ac, lambda: async_case(ac, acc), 60, 'awaited history with logs did not finish within 60 s')
         return
     if spec.get('interact'):
         from . import c15
@@ -454,4 +456,7 @@ def guarded(case, acc):
     except PeerError as e:
         acc.inconc('peer: %s' % e)
     except CaseTimeout as e:
-        acc.inconc('watchdog: %s' % e)
+        try:
+            second_attempt(acc, case, lambda: one(case, acc), 60, 'logged history did not finish within 60 s')
+        except PeerError as e2:
+            acc.inconc('peer: %s' % e2)
